@@ -30,7 +30,7 @@ ASSUMPTIONS = ["scipy solve_ivp DOP853 at rtol 1e-11 is accurate to 1e-8 m over 
                "numeric tracer: the two depths are at least 2 dz apart (fewer than two trapezoid steps is outside its domain)"]
 BUDGET = {"quick": 600, "thorough": 5400}
 CASE_TIMEOUT = {"quick": 120, "thorough": 240}
-CLASSES = ["generic", "shallow", "deep", "near-vertical", "shadow-boundary", "almost-horizontal", "steep", "exactly-vertical"]
+CLASSES = ["generic", "shallow", "deep", "near-vertical", "shadow-boundary", "almost-horizontal", "steep", "exactly-vertical", "generic", "outside"]
 
 
 def gen_cases(tier, seed):
@@ -64,6 +64,13 @@ def gen_cases(tier, seed):
             if abs(z1 - z0) < 5:
                 z1 = z0 + 50.0 if z0 < -60 else z0 - 50.0
         z0, z1 = float(np.clip(z0, zmin, -0.01)), float(np.clip(z1, zmin, -0.01))
+        if cls == "outside":
+            # one endpoint (either role, either the higher or the lower one) outside the ice's valid range: documented as "no paths"
+            zout = float(rng.choice([rng.uniform(0.01, 50.0), zmin - rng.uniform(0.01, 100.0)]))
+            if rng.random() < 0.5:
+                z0 = zout
+            else:
+                z1 = zout
         ph = rng.uniform(0, 2 * np.pi)
         a = [float(rng.uniform(-2e3, 2e3)), float(rng.uniform(-2e3, 2e3)), z0]
         b = [a[0] + float(rho * np.cos(ph)), a[1] + float(rho * np.sin(ph)), z1]
@@ -169,6 +176,9 @@ def run_case(case):
         v.check(False, "tracer reports solutions or none for in-range points (no exception)", error=type(e).__name__ + ": " + str(e)[:120], **geo)
         return v.result(decided=True, nontrivial=False, sample=geo)
     v.check(ex == (len(sols) > 0), "exists <=> the solution list is non-empty", exists=ex, n=len(sols), **geo)
+    if case["cls"] == "outside":
+        v.check(not ex and not sols, "a pair with an endpoint outside the ice's valid range gets no ray", exists=ex, n=len(sols), **geo)
+        return v.result(decided=True, nontrivial=True, sample=geo)
     v.check(len(sols) in (0, 2), "a gradient-index tracer reports no solution or two", n=len(sols), **geo)
     sample = dict(geo, solutions=[])
     if not sols:
